@@ -10,6 +10,9 @@ SHAPES = ["tidd", "hdd_tidd", "tidd_cdd", "hdd_tidd_cdd", "hdd_tidd_smooth", "ti
 
 TC_WIDE = {"T_min": 8.0, "T_max": 97.0, "T_min_seg": 10.0, "T_max_seg": 95.0}
 TC_NARROW = {"T_min": 38.5, "T_max": 61.25, "T_min_seg": 40.0, "T_max_seg": 60.0}
+# a baseline in which at least segment_minimum_count days tie at the extreme temperatures (whole-degree feeds, capped sensors):
+# the segment limits coincide with the observed range, so a balance point on the limit is ON the edge of the fitted range
+TC_TIED = {"T_min": 10.0, "T_max": 95.0, "T_min_seg": 10.0, "T_max_seg": 95.0}
 
 
 def coeffs(shape, intercept=20.0, hdd_bp=55.0, hdd_beta=1.0, hdd_k=0.0, cdd_bp=68.0, cdd_beta=1.0, cdd_k=0.0):
